@@ -148,10 +148,10 @@ def run_writer_check(pid, tier, groups, bset=REAL_B, assumptions=(), level="mode
                     + (" and executed once per write-side transport operation index and fault kind (fault enumeration)" if allk else ""),
                samples=samples, exhaustive=(total <= len(progs)), abstract_programs_total=total,
                mc_configs=["%s/%s" % m for m in mcs])
-    if extra:
-        v2, cov2, _ = extra()
+    for ex in (extra if isinstance(extra, (list, tuple)) else ([extra] if extra else [])):
+        v2, cov2, _ = ex()
         violations += v2
-        cov["concurrency"] = cov2
+        cov.setdefault("extra_parts", []).append({k: v for k, v in cov2.items() if k != "samples"})
         cov["states"] += cov2.get("states", 0)
         cov["transitions"] += cov2.get("transitions", 0)
         cov["traces_validated_against_impl"] += cov2.get("traces_validated_against_impl", 0)
@@ -160,3 +160,35 @@ def run_writer_check(pid, tier, groups, bset=REAL_B, assumptions=(), level="mode
     for v in violations:
         print("VIOLATION property=%s replay=%s" % (pid, v), flush=True)
     return 1 if violations else 0
+
+
+def suite_wire(pid, tier):
+    """E7: run the repository's own test suite with the wire tap on (build tag verif, VERIF_WIRE) and validate the
+    frames every connection wrote against WSWireTrace (C02 grammar per role, nothing after a close frame)."""
+    import subprocess
+    t0 = time.time()
+    d = core.rundir("%s-suitewire" % pid)
+    logf = os.path.join(d, "wire.log")
+    env = dict(core.GOENV, VERIF_WIRE=logf)
+    runs = 1 if tier == "quick" else 3
+    for _ in range(runs):
+        p = subprocess.run(["go", "test", "-tags", "verif", "-vet=off", "-count=1", "."], cwd=core.REPO, env=env, capture_output=True, text=True, timeout=900)
+    if not os.path.exists(logf) or os.path.getsize(logf) == 0:
+        raise core.Infra("suite wire tap produced nothing (build failure?):\n" + (p.stdout + p.stderr)[-1500:])
+    tool = os.path.join(core.BIN, "wswire")
+    b = subprocess.run(["go", "build", "-o", tool, "./cmd/wswire"], cwd=core.HARNESS, env=core.GOENV, capture_output=True, text=True)
+    if b.returncode != 0:
+        raise core.Infra("wswire build failed: " + b.stderr)
+    tr = os.path.join(d, "wire.ndjson")
+    c = subprocess.run([tool, logf, tr], capture_output=True, text=True)
+    if c.returncode != 0:
+        raise core.Infra("wswire failed: " + c.stderr)
+    res = core.validate("WSWireTrace.tla", "WSWireTrace.cfg", [tr], "%s-suitewire" % pid)
+    log("[%s] repository test suite under the wire tap: %s; %d connections / %d events validated" % (pid, c.stdout.strip(), res["traces"], res["events"]))
+    violations = []
+    for rj in res["rejections"][:3]:
+        violations.append(core.save_replay(pid, "suitewire", dict(id=rj["tid"], note="connection of the repository's own test suite (go test -tags verif with VERIF_WIRE)"),
+                                           rj["trace"], "frame %d written during the repository's tests is not explained by WSWireTrace: %s" % (rj["index"], json.dumps(rj["event"]))))
+    cov = dict(states=res["states"], transitions=res["states"], traces_validated_against_impl=res["traces"], trace_events=res["events"],
+               samples=[dict(note="frames written by one connection during the repository's test suite", first_events=[json.loads(l) for l in open(tr).readlines()[:4]])])
+    return violations, cov, time.time() - t0
